@@ -47,8 +47,8 @@ endef
 CLANGXX ?= clang++
 $(eval $(call MULTI,seq_list,0 1 2 3 4 5 6 7 8,seq_list,$(CXX)))
 $(eval $(call MULTI,seq_queue,0 1 2 3 4 5 6,seq_queue,$(CXX)))
-$(eval $(call MULTI,seq_disp,0 1 2 3 4 5 6 7 8 9 10 11 12,seq_disp,$(CXX)))
-$(eval $(call MULTI,seq_disp_clang,0 1 2 3 4 5 6 7 8 9 10 11 12,seq_disp,$(CLANGXX)))
+$(eval $(call MULTI,seq_disp,0 1 2 3 4 5 6 7 8 9 10 11 12 13 14,seq_disp,$(CXX)))
+$(eval $(call MULTI,seq_disp_clang,0 1 2 3 4 5 6 7 8 9 10 11 12 13 14,seq_disp,$(CLANGXX)))
 $(eval $(call MULTI,seq_heter,0 1 2 3 4 5 6 7,seq_heter,$(CXX)))
 $(eval $(call MULTI,seq_remover,0 1 2 3 4 5,seq_remover,$(CXX)))
 $(eval $(call MULTI,seq_anydata,0 1 2 3 4,seq_anydata,$(CXX)))
